@@ -28,7 +28,9 @@ class C14(Prop):
             "commit); after each failure, after the retry, after a clean run and after inserting the batch twice a fixed "
             "set of 3 limit-free filter lists is queried.  45% reopen cases: 1..6 batches on a file-backed database in "
             "a per-run temp directory, closed and reopened before a batch with probability 60%, next to the same "
-            "history without restarts; in 20% of them the file already holds its hash seed when the relay first opens "
+            "history without restarts; a quarter of the batches go through one lifetime of a SQLiteHandler (bulk size 50, no "
+            "timer: a session submits the events and gets its OKs, the handler's context is cancelled, the final insertion is "
+            "awaited with a sentinel event) instead of insertEvents directly; in 20% of them the file already holds its hash seed when the relay first opens "
             "it (0 in half of those, else 1, 2^32-1 or random): every open must report that seed.  A case is non-trivial when the batch changes an answer (fault) or a restart is "
             "followed by a replacement or a deletion that changes an answer (reopen); distinct = distinct input JSON")
     trusted_base = SQL_TRUSTED + [
@@ -73,7 +75,8 @@ class C14(Prop):
         if c["k"] in ("fault", "bigfault"):
             return {"k": c["k"], "qs": c["qs"], "pre": c.get("pre") or [], "b": c.get("b") or []}
         d = {"k": "reopen", "qs": c["qs"],
-             "steps": [{"re": st["re"], "b": st["b"]} for st in c.get("steps") or []]}
+             "steps": [dict({"re": st["re"], "b": st["b"]}, **({"via": st["via"]} if st.get("via") else {}))
+                       for st in c.get("steps") or []]}
         if c.get("preset") is not None:
             d["preset"] = c["preset"]
         return d
